@@ -27,16 +27,21 @@ ASSUMPTIONS = ['an LR parser never shifts a non-viable token, so the token repor
 OPERAND_END = {'NAME', 'NUMBER', 'STRING', 'RPAREN', 'RBRACKET', 'RBRACE', 'TRUE', 'FALSE', 'NONE'}
 AFTER_OP = {'PLUS', 'TIMES', 'DIVIDE', 'POWER', 'EQ', 'LT', 'AND', 'OR', 'LPAREN', 'LBRACKET', 'COMMA', 'ASSIGN', 'NEWLINE', 'MINUS', 'IN'}
 BINONLY = ['*', '/', '**', '==', 'and', 'or', 'in', '.', '|', '=>', '<=', '!=']
-MULTI = ['x = [\n1,\n2\n]', 'd = {\n"a": 1,\n"b": [2,\n3]\n}', 'f(\na,\nb\n)', 'y = (1 +\n 2)', 'z = [\r\n 1,\r\n 2\r\n]',
+MULTI = ['s = "a\\nb\\nc"', 'w = ["l1\\nl2", \'q\\n\']', 't = "x\\ty\\n" + r"raw\\n"', 'x = [\n1,\n2\n]', 'd = {\n"a": 1,\n"b": [2,\n3]\n}', 'f(\na,\nb\n)', 'y = (1 +\n 2)', 'z = [\r\n 1,\r\n 2\r\n]',
          'g(a, # c\n b)', 'm = {"k": (1,\n\n 2) | f}']
 EOF_RE = re.compile(r'(?i)\bend of (input|file|text)\b|\bEOF\b|unexpected end')
 _parser = None
+_cached_parser = None
 
 
-def parser():
-    global _parser
+def parser(cached=False):
+    global _parser, _cached_parser
+    from smartquery import SqParser
+    if cached:
+        if _cached_parser is None:
+            _cached_parser = SqParser(parse_cache={})
+        return _cached_parser
     if _parser is None:
-        from smartquery import SqParser
         _parser = SqParser()
     return _parser
 
@@ -69,7 +74,7 @@ def judge(text, exp_text, exp_line, case, p=None):
 
 def run_case(case):
     from smartquery import SqParser
-    p = SqParser()
+    p = SqParser(parse_cache={}) if case.get('cached') else SqParser()
     if case.get('prior'):
         try:
             p.parse(case['prior'])
@@ -94,7 +99,7 @@ def cases(draw):
         else:
             parts.append(unparse.minimal_stmt(draw(sentences.programs(max_depth=2, max_stmts=1))[0]))
         parts.append(pick(['\n', '\n', ';', '\r\n', '\n\n', ' # c\n', '; ', '\r\n\r\n', ';;', '\n# only a comment\n']))
-    src = ''.join(parts[:-1])
+    src = pick(['', '', '', '\n', '\n\n', '\r\n', ' \n\t\n', '# c\n']) + ''.join(parts[:-1])
     mode = pick(['operand', 'operand', 'binop', 'binop', 'closer', 'comma', 'trunc'])
     return src, mode, n(10 ** 6), n(12)
 
@@ -191,8 +196,11 @@ def run_job(job):
         if b is None or b[0] == 'ACCEPTED':
             return hyp.Result(discard=True)
         text, exp_text, exp_line = b
-        case = {'text': text, 'exp_text': exp_text, 'exp_line': exp_line, 'prior': prior[0]}
-        fails = judge(text, exp_text, exp_line, case)
+        cached = (pos_seed % 3 == 0)
+        case = {'text': text, 'exp_text': exp_text, 'exp_line': exp_line, 'prior': prior[0], 'cached': cached}
+        fails = judge(text, exp_text, exp_line, case, parser(cached))
+        if cached:
+            st.add('cases_on_a_parser_with_parse_cache')
         prior[0] = text
         if exp_line is None:
             nt = text.count('\n') >= 2 or ';' in text
